@@ -524,6 +524,8 @@ def r175(db, ctx):
                 a = norm(R.operand(t['args'][1]))
                 if a == ('k', 0.0):
                     ok += 1
+            elif name == 'create' and c.endswith('Motif::from_counts'):
+                ok += 1         # the arm delegates to the sibling constructor, which is checked on its own below
         want = 2 if name == 'create' else 1
         (ctx.ok if ok == want else ctx.fail)('R17.5', f, f'{name}: to_freq(0.0)', *([[f'{ok} alphabet arm(s)']] if ok == want else [f'to_freq pseudocount is not the constant 0.0 in {want - ok} arm(s)']))
 
